@@ -1078,6 +1078,63 @@ def pool_stream(chk):
     return n, hits
 
 
+def multicall_script(rng):
+    """An ordinary random history with system.multicall requests in it: sequences of start/stop/signal calls on single
+    processes (the "restart" idiom stop-then-start among them).  Request k+1 of a multicall arrives when request k has
+    been answered; the monitors judge every part against the state at that moment (outside the Coq model)."""
+    s = life_gen.random_script(rng, nprocs=rng.choice([1, 1, 2]), hostile=0.05, shutdown=0.05, rpcw=0.2, maxlen=24)
+    n = len(s['procs'])
+    for c in s['procs']:
+        if rng.random() < 0.7:
+            c['cmd'] = 0
+    nreq = 0
+    for op in s['ops']:
+        if rng.random() < 0.3:
+            p = rng.randrange(n)
+            shape = rng.random()
+            if shape < 0.4:
+                subs = [['stop', p, 1], ['start', p, rng.choice([0, 1])]]
+            elif shape < 0.55:
+                subs = [['start', p, 1], ['stop', p, rng.choice([0, 1])]]
+            elif shape < 0.7:
+                subs = [['stop', p, 1], ['start', p, 1], ['stop', p, rng.choice([0, 1])]]
+            elif shape < 0.8:
+                subs = [['stop', p, 1], ['signal', p, rng.choice([1, 10, 15])], ['start', p, 0]]
+            else:
+                subs = [[rng.choice(['start', 'stop']), rng.randrange(n), rng.choice([0, 1])]
+                        for _ in range(rng.randrange(2, 5))]
+            acts = []
+            for (what, i, arg) in subs:
+                nreq += 1
+                acts.append(['rpc', 8000 + nreq, what, i, arg])
+            op['acts'] = list(op['acts']) + [['multicall', acts]]
+        if rng.random() < 0.5:
+            op['acts'] = list(op['acts']) + [['poll']]
+    s['ops'] += [{'now': s['ops'][-1]['now'] + 1 + j, 'acts': [['poll']], 'forkq': [], 'killq': []} for j in range(3)]
+    return s
+
+
+def multicall_stream(chk):
+    n = 500 if chk.tier == 'quick' else 6000
+    hits = 0
+    deferred = 0
+    for k in range(n):
+        s = multicall_script(chk.rng)
+        pend_exit.clear(); prev_state.clear(); ever_started_before.clear(); pend_es.clear()
+        r = life_driver.run_script(s)
+        chk.dist('multicall:' + str(r['ended']))
+        msgs = [m(s, r) for m in (mon_c06, mon_c13, mon_c04, mon_c02)]
+        if r.get('multicall_errors'):
+            msgs.append('system.multicall: ' + '; '.join(r['multicall_errors'][:3]))
+        for msg in msgs:
+            if msg:
+                hits += 1
+                if hits <= 5:
+                    chk.violation({'kind': 'system.multicall history: property monitor rejects the implementation trace',
+                                   'message': msg, 'script': s, 'implementation': jsonable_result(r)})
+    return n, hits
+
+
 def dynamic_script(rng, U=2):
     """Groups added by RPC at run time, then a shutdown/restart: outside the Coq model (static group set), judged by
     the monitors only (C05 order, exit condition, no fork after the request)."""
@@ -1360,6 +1417,10 @@ def _run(chk, which, prop_rel, proved, wd):
         npl, hpl = pool_stream(chk)
         nh += npl
         monitor_hits += hpl
+    if which == 'C13':
+        nm, hm = multicall_stream(chk)
+        nh += nm
+        monitor_hits += hm
     if which in ('C05', 'C02'):
         nd, hd = dynamic_stream(chk)
         nh += nd
